@@ -12,7 +12,8 @@ import numpy as np
 
 NREC = 3
 
-# field kinds: S sequence id (StringArray column), s string, i int, f float, o optional int, x strand, q quality string, l rest-of-line text
+# field kinds: S sequence id (StringArray column), s string, i int, f float, o optional int, x strand, q quality string, l rest-of-line text,
+# L comma separated list of integers (a trailing comma is allowed in the file)
 SOURCES = {
     "bed6": dict(
         buffer="Bed6Buffer", kind="delim",
@@ -20,6 +21,17 @@ SOURCES = {
         canon=[["chr1", "7", "10", "n1", "5", "+"], ["chr22", "5", "1007", "name2", "10", "-"], ["c3", "100", "200", "x", "0", "."]],
         noncanon=[["chr1", "007", "10", "n1", "05", "+"], ["chr22", "5", "+1007", "name2", "10", "-"], ["c3", "0100", "200", "x", "0", "."]],
         pairs=[("start", "name"), ("chromosome", "stop"), ("score", "strand"), ("stop", "start")]),
+    "bed12": dict(
+        buffer="Bed12Buffer", kind="delim",
+        fields=[("chromosome", "S"), ("start", "i"), ("stop", "i"), ("name", "S"), ("score", "o"), ("strand", "x"), ("thick_start", "i"), ("thick_end", "i"),
+                ("item_rgb", "s"), ("block_count", "i"), ("block_sizes", "L"), ("block_starts", "L")],
+        canon=[["chr1", "7", "100", "n1", "5", "+", "8", "90", "0", "2", "10,20", "0,30"],
+               ["chr22", "5", "1007", "name2", "10", "-", "5", "1007", "255,0,0", "1", "1002", "0"],
+               ["c3", "100", "200", "x", "0", ".", "100", "200", "0", "3", "1,22,3", "0,10,97"]],
+        noncanon=[["chr1", "007", "100", "n1", "5", "+", "8", "90", "0", "2", "10,20,", "0,30,"],
+                  ["chr22", "5", "+1007", "name2", "10", "-", "5", "1007", "255,0,0", "1", "1002,", "0,"],
+                  ["c3", "100", "200", "x", "0", ".", "0100", "200", "0", "3", "1,22,3", "0,10,97,"]],
+        pairs=[("block_sizes", "name"), ("start", "block_starts"), ("block_starts", "block_sizes"), ("name", "block_count")]),
     "bed3": dict(
         buffer=None, suffix=".bed", kind="delim",
         fields=[("chromosome", "S"), ("start", "i"), ("stop", "i")],
@@ -145,6 +157,8 @@ def parse_text(kind, text):
         return repr(float(text))
     if kind == "q":
         return [ord(c) - 33 for c in text]
+    if kind == "L":
+        return [int(x) for x in text.split(",") if x != ""]
     return text
 
 
@@ -157,6 +171,8 @@ def fresh_value(kind, k, j):
         return "+-"[(j + k) % 2]
     if kind == "q":
         return [(k + j + m) % 40 for m in range(j + 1)]
+    if kind == "L":
+        return [100 * k + j + m for m in range(1 + (j + k) % 3)]
     if kind == "l":
         return "XX:i:%d" % (10 * k + j)
     return "n%dr%d" % (k, j) + "z" * (j % 3)
@@ -167,6 +183,8 @@ def canon_text(kind, value):
         return str(value + 1)
     if kind == "q":
         return "".join(chr(33 + v) for v in value)
+    if kind == "L":
+        return ",".join(str(v) for v in value)
     if kind == "f":
         return value
     return str(value)
@@ -179,7 +197,7 @@ def to_array(kind, values):
         return np.array(values, dtype=int)
     if kind == "f":
         return np.array([float(v) for v in values])
-    if kind == "q":
+    if kind in ("q", "L"):
         from npstructures import RaggedArray
         return RaggedArray([list(v) for v in values]) if values else RaggedArray([], [])
     if kind == "x":
@@ -197,7 +215,7 @@ def project_column(kind, col):
         return [int(x) for x in np.asarray(col).tolist()]
     if kind == "f":
         return [repr(float(x)) for x in np.asarray(col).tolist()]
-    if kind == "q":
+    if kind in ("q", "L"):
         return [[int(y) for y in x] for x in col.tolist()]
     out = col.tolist()
     if isinstance(out, str):
